@@ -364,6 +364,48 @@ pub fn drive_deadband(s: &mut Session, rng: &mut Rng, runs: usize) {
     }
 }
 
+/// requests just outside the dead band (0.05 s + 0.2 .. 0.9 ms, i.e. within one sample period of its edge at
+/// 1 kHz but far beyond the rounding of the comparison) must be honoured, requests just inside it (0.05 s
+/// - 0.5 ms) are not: short times, where a difference of 0.05 s is a factor of 1.3 .. 1.8 in the time and C14's
+/// own bands at t/10 tell the two settings apart
+pub fn drive_band_edge(s: &mut Session, rng: &mut Rng, runs: usize) {
+    for r in 0..runs {
+        let fs = *rng.pick(&[1000u32, 1000, 2000, 8000]);
+        s.start(fs);
+        let a = (0.06 + 0.14 * rng.unit()) as f32;
+        let delta = *rng.pick(&[0.0002f32, 0.0005, 0.0008, 0.0009]);
+        let up = rng.chance(2, 3);
+        let b = if r % 4 == 3 {
+            // just inside: ignored
+            if up { a + 0.05 - 0.0005 } else { a + 0.0495 }
+        } else if up {
+            a + 0.05 + delta
+        } else {
+            a - 0.05 - delta
+        };
+        if up || r % 4 == 3 {
+            s.set_time(a);
+            s.set_time(b);
+        } else {
+            // downwards: start from the longer time so that both stay above 100 samples at 2 kHz and more
+            let a2 = a + 0.06;
+            s.set_time(a2);
+            s.set_time(a2 - 0.05 - delta);
+        }
+        let n_max = (0.3f64 * fs as f64) as u64 * 4;
+        s.hold(0.0, 8, 8);
+        s.process(1.0);
+        let mut done = 1u64;
+        while done < n_max {
+            let chunk = (done / 8).max(1).min(500) as u32;
+            s.stretch(chunk);
+            done += chunk as u64;
+            s.process(1.0);
+            done += 1;
+        }
+    }
+}
+
 /// range end points (C17): glide times >= 0 of any finite magnitude, both ends of the rate range
 pub fn drive_extreme(s: &mut Session, rng: &mut Rng, runs: usize) {
     let ts: [f32; 12] = [0.0, -0.0, 1e-45, f32::MIN_POSITIVE, 1e-10, 1e-3, 0.05, 10.0, 10.000001, 1e10, f32::MAX, 9.99];
@@ -433,7 +475,10 @@ pub fn record(driver: &str, seed: u64, thorough: bool, out: &mut Out) -> Stats {
             drive_huge(&mut s, &mut rng, if thorough { 200 } else { 20 });
             drive_tiny(&mut s, &mut rng, if thorough { 120 } else { 16 });
         }
-        "deadband" => drive_deadband(&mut s, &mut rng, if thorough { 400 } else { 40 }),
+        "deadband" => {
+            drive_deadband(&mut s, &mut rng, if thorough { 400 } else { 40 });
+            drive_band_edge(&mut s, &mut rng, if thorough { 600 } else { 80 });
+        }
         "extreme" => drive_extreme(&mut s, &mut rng, if thorough { 200 } else { 30 }),
         "rates" => drive_rates(&mut s, &mut rng, thorough),
         _ => {
